@@ -43,12 +43,13 @@ def build_inputs(entry, rep, cond):
         store['mask'] = np.zeros((3, 3), dtype=bool)
     if cond == 'emptymask':            # a mask array is supplied but selects nothing
         store['mask'] = np.zeros(E.SHAPE, dtype=bool)
-    if entry == 'epsf':
+    if entry in ('epsf', 'epsf_weights'):
         from astropy.nddata import NDData, StdDevUncertainty
         store['nddata_data'] = np.asarray(getattr(store['data'], 'value', store['data']), dtype=float).copy() if not isinstance(store['data'], np.ma.MaskedArray) else np.asarray(store['data'].filled(0.0))
         store['nddata_unc'] = np.asarray(getattr(store['error'], 'value', store['error']), dtype=float).copy()
         store['nddata_mask'] = None if store.get('mask') is None or store['mask'].shape != E.SHAPE else store['mask']
-        store['nddata'] = NDData(store['nddata_data'], uncertainty=StdDevUncertainty(store['nddata_unc']), mask=store['nddata_mask'])
+        unc = E.weights_uncertainty(store['nddata_unc']) if entry == 'epsf_weights' else StdDevUncertainty(store['nddata_unc'])
+        store['nddata'] = NDData(store['nddata_data'], uncertainty=unc, mask=store['nddata_mask'])
         st = Table(); st['x'] = [p[0] for p in E._positions()]; st['y'] = [p[1] for p in E._positions()]
         store['stars_table'] = st
     store['segm'] = segm
